@@ -38,7 +38,14 @@ BOUND = ('ordered rule lists (registration order matters for the tree): every ru
          'digits, e.g. anon_id, anon_0, anon, _, _0, Anon_x) in 20 rule shapes (plain, in-segment, int, float, re, '
          'path, two such names, next to anonymous wildcards) as singletons in each flavour, and 6 rule lists with '
          'such names (shared prefixes, literal-vs-wildcard, several rules on one pattern) in their orders of '
-         'registration; every ordered 3-subset (thorough: 4-subset) and some full orders of 9 '
+         'registration; a path wildcard directly before literal text with regular-expression metacharacters (27 '
+         'literals such as (d) [1] |raw .d a. . a+ a* ?x $ ^a a\\d with ( ) [ ] | . + * ? $ ^ backslash) in 10 rule '
+         'shapes (final, before /<x>, directly before <x> / <n:int> / another path wildcard, inside longer literal '
+         'text, behind another wildcard) as singletons in each flavour and in 56 rule lists (with a catch-all path '
+         'rule, several such rules side by side) in 2..4 orders, asked with the full product of: path-wildcard values '
+         '(plain, with /, the literal itself, text containing the literal, decoys = texts the literal would match if it '
+         'were read as a regular expression) x values of the later wildcards incl. decoys, plus near misses of the '
+         'literal; every ordered 3-subset (thorough: 4-subset) and some full orders of 9 '
          'prefix-sharing families of 8 rules (literal splits, literal-vs-wildcard backtracking, in-segment wildcards, int, '
          'float, re, empty-matching re, path, several rules on one pattern with different names/methods); 2500 '
          '(thorough 60000) seeded random lists of 2..4 (thorough 2..6) rules; x request paths: all strings of length '
@@ -142,8 +149,18 @@ def _alias(rule):
     return out, back
 
 
+_LIT_ALIAS = {'(': '\ue001', ')': '\ue002', '*': '\ue003'}       # literal characters S.valid_rule keeps out of the pools
+
+
 def render(rule, flavour):
-    """S.render, also for wildcard names the spec generator guard refuses (names starting with 'anon')."""
+    """S.render, also for wildcard names the spec generator guard refuses (names starting with 'anon') and for
+    literal text with characters it refuses ('(' ')' '*': rendered through private-use placeholders)."""
+    if any(S.is_lit(seg) and set(seg[1]) & set(_LIT_ALIAS) for seg in rule):
+        fwd = str.maketrans(_LIT_ALIAS)
+        back = str.maketrans({v: k for k, v in _LIT_ALIAS.items()})
+        assert not any(ph in str(seg) for seg in rule for ph in _LIT_ALIAS.values())
+        aliased = [[seg[0], seg[1].translate(fwd)] if S.is_lit(seg) else seg for seg in rule]
+        return render(aliased, flavour).translate(back)
     if not any(not S.is_lit(seg) and seg[1] is not None and seg[1].startswith('anon') for seg in rule):
         return S.render(rule, flavour)
     aliased, back = _alias(rule)
@@ -195,6 +212,83 @@ def odd_name_lists():
     ]
     assert all(_odd_ok(r) for lst in lists for r in lst)
     return lists
+
+
+# ----------------------------------------------------------------------------- path wildcard before literal text with
+# characters that mean something in a regular expression.  "The literal text after a path wildcard is plain text of the
+# rule": the wildcard takes everything up to the last occurrence of exactly that text (S._take: rfind).  Each literal
+# comes with DECOYS: texts that are NOT the literal but that the literal, read as a regular expression, would match.
+META_LITS = {
+    '(d)': ['d'], '(disambiguation)': ['disambiguation'], '(': [], ')': [], ')x(': [],
+    '[1]': ['1'], '[ab]': ['a', 'b'], '[': [], ']': [],
+    '|raw': ['raw', ''], 'a|b': ['a', 'b'],
+    '.d': ['xd', '-d', '/d'], 'a.': ['ab', 'a-', 'a/'], '.': ['x', '-'], '..': ['xy', 'a.'],
+    '+x': ['x'], 'a+': ['a', 'aa'], '*x': ['x'], 'a*': ['a', 'aa', ''], '?x': ['x'], 'a?': ['a', ''],
+    '$': [''], 'a$': ['a'], '^a': ['a'], 'a\\d': ['a1', 'a7'], '\\': [], 'a.b+': ['axb', 'a.bb'],
+}
+
+
+def meta_rules(lit):
+    """Rule shapes with a path wildcard directly before literal text that contains `lit`."""
+    L = S.Lit
+    t, q, x, n = W('t', 'path'), W('q', 'path'), W('x'), W('n', 'int')
+    rules = [
+        [L('/w/'), t, L(lit)], [L('/'), t, L(lit)], [L('/w/'), t, L(lit + '/'), x], [L('/w/'), t, L(lit), x],
+        [L('/w/'), t, L(lit + '/'), n], [L('/w/'), t, L(lit + '/'), q], [L('/w/'), t, L('a' + lit + 'b')],
+        [L('/w/'), t, L(lit), n, L('/b')], [L('/a/'), x, L('/'), t, L(lit)], [L('/w/'), t, L(lit), q],
+    ]
+    for r in rules:
+        assert S.valid_rule([[sg[0], sg[1].translate(str.maketrans(_LIT_ALIAS))] if S.is_lit(sg) else sg for sg in r]), r
+    return rules
+
+
+def meta_lists():
+    """Rule lists: rules with such literals next to each other and next to a catch-all (where a path that the
+    literal rule should take would otherwise go)."""
+    L = S.Lit
+    t = W('t', 'path')
+    any_ = [L('/'), W('anything', 'path')]
+    lists = [[[L('/w/'), t, L(lit)], any_] for lit in META_LITS]
+    lists += [[[L('/w/'), t, L(lit + '/'), W('x')], any_] for lit in META_LITS]
+    lists.append([[L('/wiki/'), W('title', 'path'), L('(disambiguation)')], [L('/item/'), W('key', 'path'), L('[1]')],
+                  [L('/dl/'), W('dir', 'path'), L('.d/'), W('file', 'path')], [L('/alt/'), W('a', 'path'), L('|raw')],
+                  [L('/plain/'), W('p', 'path'), L('/end')], any_])
+    lists.append([[L('/w/x/'), t, L('a+')], [L('/w/y/'), t, L('a*b')], [L('/w/z/'), t, L('?')], [L('/w/'), W('k', 'int'), L('/'), t, L('$')]])
+    return lists
+
+
+def meta_paths(rule):
+    """Request paths for a rule of meta_rules / meta_lists: the path wildcard holds plain text, text with '/', the
+    following literal itself, a decoy; the literal is followed by a decoy (so that the LAST place where the literal
+    read as a regular expression would match is not the last place where the literal stands)."""
+    lits = [seg[1] for seg in rule if S.is_lit(seg)]
+    decoys = []
+    for m, ds in META_LITS.items():
+        if any(m in text for text in lits):
+            decoys += [d for d in ds if d not in decoys]
+    choices = []
+    for k, seg in enumerate(rule):
+        if S.is_lit(seg):
+            choices.append([seg[1]])
+            continue
+        nxt = rule[k + 1][1] if k + 1 < len(rule) else ''
+        if seg[2] == 'path' and nxt:
+            vals = ['a', 'a/b', 'Mercury', '\xe9', '', nxt, 'a' + nxt + 'b', nxt + 'a'] + decoys[:3]
+        elif seg[2] == 'path':
+            vals = ['b', 'c/d'] + decoys + [d + '/c' for d in decoys[:3]]
+        elif seg[2] == 'int':
+            vals = ['1', '-2', 'a']
+        else:
+            vals = ['b', 'xx', ''] + [d for d in decoys if '/' not in d]
+        choices.append(list(dict.fromkeys(vals)))
+    out = [''.join(tup) for tup in itertools.product(*choices)]
+    # near misses: the literal's special characters dropped / the literal cut short
+    for pth in list(out[:40]):
+        for m in META_LITS:
+            if m in pth and len(m) > 1:
+                out.append(pth.replace(m, m[1:], 1))
+                out.append(pth.replace(m, m[:-1], 1))
+    return [pth for pth in dict.fromkeys(out) if '\n' not in pth]
 
 
 # ----------------------------------------------------------------------------- case generation
@@ -265,6 +359,28 @@ def gen_cases(tier, seed):
             rules = [lst[i] for i in order]
             fls = [fl_cycle[(k + i) % 3] for i in range(len(rules))]
             yield _case(rules, fls, [['guided', k, 25], ['all', 3, 0, 1]], app=1 if k % 2 == 0 else 0)
+
+    # A4. a path wildcard before literal text with regular-expression metacharacters: every literal of META_LITS x 10
+    #     rule shapes x every flavour as a singleton; the rule lists of meta_lists in both / a few orders
+    for lit in META_LITS:
+        for rule in meta_rules(lit):
+            seen_text = set()
+            for fl in S.FLAVOURS:
+                text = render(rule, fl)
+                if text in seen_text:
+                    continue
+                seen_text.add(text)
+                k += 1
+                yield _case([rule], [fl], [['meta'], ['guided', k, 20]], app=1)
+    for lst in meta_lists():
+        orders = [list(range(len(lst))), list(range(len(lst)))[::-1]]
+        if len(lst) > 2:
+            orders += [orders[0][2:] + orders[0][:2], orders[0][1::2] + orders[0][0::2]]
+        for order in orders:
+            k += 1
+            rules = [lst[i] for i in order]
+            fls = [fl_cycle[(k + i) % 3] for i in range(len(rules))]
+            yield _case(rules, fls, [['meta'], ['guided', k, 15]], app=k % 2)
 
     # B. ordered pairs of the pool
     core = pool if not quick else [r for i, r in enumerate(pool) if i % 5 != 4][:40]
@@ -350,6 +466,10 @@ def _paths(case):
         elif kind == 'list':
             for pth in src[1]:
                 yield pth, True
+        elif kind == 'meta':
+            for rule in rules:
+                for pth in meta_paths(rule):
+                    yield pth, True
         elif kind == 'longnum':
             # numerals of src[1] digits in every numeric wildcard (the interpreter's int() refuses > 4300 digits)
             for rule in rules:
